@@ -6,7 +6,7 @@ PID = "C19"
 NEEDS_UTILS = False
 RULE = ("seeded programs over the random-consuming APIs (rand/randn/normal/randint, every initialiser, layer constructors, Dropout forward+backward, "
         "split_dataset(shuffle=True), 3-10 training steps with SGD/Adam/AdamW on Sequential(Linear,BatchNorm1d,ReLU,Dropout,Linear) with a wide "
-        "fan-in penalty) and unseeded random DAG programs with 40-term fan-in per leaf; each program runs in >= 6 fresh processes "
+        "fan-in penalty, re-seeding a model that already exists) and unseeded random DAG programs with 40-term fan-in per leaf; each program runs in >= 6 fresh processes "
         "(PYTHONHASHSEED in {0,1,4242,random} x 0 or 1e5 junk objects allocated before import) and 2-3 times inside each process; SHA-256 over "
         "dtype, shape and bytes of every produced array must coincide; an RNG tap wraps numpy.random.default_rng/RandomState/SeedSequence, "
         "random.Random/SystemRandom and os.urandom and reports any generator constructed from library code without a seed. distinct key = "
